@@ -3,6 +3,7 @@ package main
 import (
 	"fmt"
 	"math/big"
+	"strings"
 	"time"
 
 	"github.com/lianxiangcloud/linkchain/libs/common"
@@ -41,8 +42,15 @@ type probe struct {
 	nreverts          int
 	ndumps            int
 
-	curOp         evm.OpCode // the operation being executed (the last one traced)
-	curSet        bool
+	curOp  evm.OpCode // the operation being executed (the last one traced)
+	curSet bool
+
+	// jump-validity reference (see jumpref.go)
+	pendJump      map[int]*jumpPend // depth -> JUMP/JUMPI that has been traced and whose verdict is not known yet
+	zeroJumpers   map[string]bool   // distinct codes that ran with a zero CodeHash and executed a jump
+	curShared     bool              // the operation being executed is a jump in zero-hash code after another zero-hash code jumped
+	refCode       []byte            // cache of the last fresh analysis
+	refData       []bool
 	pending       []pendingTrim
 	ghostRecords  int    // observation (not judged): balance records of a reverted nested frame that survive in EVM.GetOTxs()
 	ghostOpener   string // what opened the first such frame
@@ -244,17 +252,24 @@ func (p *probe) CaptureState(env *evm.EVM, pc uint64, op evm.OpCode, gas, cost u
 		}
 	}
 	if err != nil {
-		// deferred report: the operation failed validation / gas charging before it was logged
+		// deferred report: the operation failed validation / gas charging before it was logged; a jump that
+		// was pending at this depth has therefore been accepted
+		p.settleJump(depth, pc, true)
 		p.frameFailed(depth, err)
 		return nil
 	}
+	p.settleJump(depth, pc, true)
 	p.resumeAt(depth)
 	p.lastOp[depth] = op
-	p.curOp, p.curSet = op, true
+	p.curOp, p.curSet, p.curShared = op, true, false
+	if op == evm.JUMP || op == evm.JUMPI {
+		p.traceJump(op, pc, stack, contract, depth)
+	}
 	return nil
 }
 
 func (p *probe) CaptureFault(env *evm.EVM, pc uint64, op evm.OpCode, gas, cost uint64, memory *evm.Memory, stack *evm.Stack, contract *evm.Contract, depth int, err error) error {
+	p.settleJump(depth, pc, !strings.HasPrefix(err.Error(), "invalid jump destination"))
 	p.frameFailed(depth, err)
 	return nil
 }
